@@ -295,6 +295,8 @@ def engine_b(c, rng):
                 os.remove(cfgfile)
             if file_a:
                 open(cfgfile, "w").write(toml_file(file_a, rng))
+                # who may write the file is the owner's business (umask 000 containers, shared mounts): the settings in it count
+                os.chmod(cfgfile, rng.choice([0o644, 0o644, 0o600, 0o666, 0o777, 0o444, 0o664]))
             argv = cli_args(dict(pin, **cli_a), rng)
             env = {SETTINGS[k][0]: v for k, v in env_a.items()}
             ip, prt = eff["ip"] if s == "ip" else "127.0.0.1", int(eff["port"]) if s == "port" else port
